@@ -179,9 +179,20 @@ def lib_case(draw):
     mn = {"zero": 0, "eq": value, "one": min(1, value)}.get(mink)
     if mn is None:
         mn = draw(st.integers(0, value))
+    seed = draw(st.integers(0, 1 << 40))
+    # the proof shapes the test must cover are forced by a hash selector (rp_common.hsel): 1/8 each
+    sel = RC.hsel("C10lib", seed) % 8
+    if sel == 0:
+        exp, mb, mn = 0, 64, 0                          # 64-bit mantissa (5126-byte proof)
+    elif sel == 1:
+        exp = -1                                        # exact-value proof (73 bytes: every bit is flipped)
+    elif sel == 2:
+        exp, mb, value, mn = 0, 0, value & 1, 0         # mantissa 1 (98 bytes: every bit is flipped)
+    elif sel == 3:
+        exp, mb, value, mn = 0, 3 + (seed % 6), value & 0xFF, 0      # 259..643 bytes: 256 sampled flips
     return {"value": value, "min_value": mn, "exp": exp, "min_bits": mb, "blind": draw(gens.seckey_valid), "nonce": draw(gens.hexbytes(32)),
             "msg_len": draw(st.sampled_from([0, 0, 1, 32, 100])), "extra": draw(st.sampled_from([0, 0, 1, 7, 32, 33]).flatmap(lambda n: gens.hexbytes(n))),
-            "gen": draw(RC.gen_spec), "seed": draw(st.integers(0, 1 << 40)), "paint": draw(st.sampled_from([0xFF, 0xFF, 0x00, 0xA5]))}
+            "gen": draw(RC.gen_spec), "seed": seed, "paint": draw(st.sampled_from([0xFF, 0xFF, 0x00, 0xA5]))}
 
 
 def flip_positions(nbytes, seed, tier):
@@ -272,7 +283,7 @@ def run_lib(env, case):
 
 
 # ================================================================================================ (ii) reference prover
-ADV = ["honest", "honest", "exact", "exp_hi", "reserved", "mant_hi", "overflow", "overflow", "overflow", "exp_overflow", "spare_bits", "trailing", "digit_bad_x", "digit_bad_x",
+ADV = ["honest", "honest", "exact", "exact", "exp_hi", "reserved", "mant_hi", "overflow", "overflow", "overflow", "exp_overflow", "spare_bits", "trailing", "digit_bad_x", "digit_bad_x",
        "digit_x_plus_p", "scalar_zero", "last_inf", "wrong_witness", "f3", "ref_sender"]
 MANT_SMALL = [1, 1, 2, 2, 3, 3, 4, 5, 5, 6, 7, 8, 9, 11, 16, 17, 19, 33]
 
@@ -294,14 +305,15 @@ TINY = _tiny_points()
 
 @st.composite
 def ref_case(draw, adv=None):
-    a = adv or draw(st.sampled_from(ADV))
+    seed = draw(st.integers(0, 1 << 40))
+    a = adv or ADV[RC.hsel("C10adv", seed) % len(ADV)]      # class by hash selector (rp_common.hsel), not by Hypothesis' clumpy sampled_from
     mant = RC.weighted(draw, [(10, st.sampled_from(MANT_SMALL)), (1, st.sampled_from([63, 64, 64])), (1, st.integers(1, 64))])
     if a == "f3":
         mant = draw(st.sampled_from([1, 1, 1, 3, 3, 3, 5, 5, 7, 9, 11, 17, 63]))
     if a in ("honest", "overflow") and draw(st.sampled_from([0, 1, 2, 3, 4, 5, 6, 7])) == 0:
         mant = 64
     return {"adv": a, "mant": mant, "exp": draw(st.sampled_from([0, 0, 0, 1, 2, 3, 9, 18])), "minsel": draw(st.sampled_from(["none", "none", "zero", "small", "max"])),
-            "v": draw(st.one_of(st.integers(0, U64), gens.u64_edge)), "seed": draw(st.integers(0, 1 << 40)), "param": draw(st.integers(0, 1 << 16)),
+            "v": draw(st.one_of(st.integers(0, U64), gens.u64_edge)), "seed": seed, "param": draw(st.integers(0, 1 << 16)),
             "forged": draw(st.sampled_from(["small", "small", "small", "mid", "rand"])), "gen_k": draw(st.one_of(st.just(0), gens.seckey_valid)),
             "extra": draw(st.sampled_from([0, 0, 1, 32]).flatmap(lambda n: gens.hexbytes(n))), "paint": draw(st.sampled_from([0xFF, 0xFF, 0x00, 0xA5]))}
 
@@ -321,7 +333,8 @@ def forged_list(case, npub):
 def build_ref(env, case):
     """-> dict(proof, C, H, g, extra, nonce, expect, twins=[(tag, bytes, expect)], classes) or None (prover gave up: degenerate hash / point)"""
     a = case["adv"]
-    seed, param = case["seed"], case["param"]
+    seed = case["seed"]
+    param = RC.hsel("C10param", seed, case["param"]) & 0xFFFFFF          # sub-selectors (param % k) uniform whatever the drawn integer looks like
     exp, mant = case["exp"], case["mant"]
     classes = ["adv:" + a]
     out = {"twins": [], "classes": classes, "nonce": ec.sha256(b"C10 nonce" + seed.to_bytes(8, "big")), "extra": bytes.fromhex(case["extra"]), "expect": None, "f3": False}
